@@ -648,7 +648,20 @@ func (st *State) storeAt(a *Addr, v Val, t types.Type) {
 		}
 	case "elem":
 		h := st.hget(a.Class)
+		// remembered elements of the SAME array at other literal indices stay valid across this store
+		keep := map[string]Val{}
+		if isIntLit(a.Idx) {
+			pre := a.Class + "@" + a.Ref + "@"
+			for k, kv := range st.last {
+				if strings.HasPrefix(k, pre) && isIntLit(k[len(pre):]) && k[len(pre):] != a.Idx {
+					keep[k] = kv
+				}
+			}
+		}
 		st.hset(a.Class, "(store "+h+" "+a.Ref+" (store (select "+h+" "+a.Ref+") "+a.Idx+" "+st.valTerm(v)+"))")
+		for k, kv := range keep {
+			st.last[k] = kv
+		}
 		if v.S != "" {
 			st.last[a.Class+"@"+a.Ref+"@"+a.Idx] = v
 		}
